@@ -84,6 +84,11 @@ func (b *Buffered[T]) Front() *T {
 // the ring has less entries the twice the buffer size, it will shrink by the
 // buffer size.
 func (b *Buffered[T]) RemoveFront() *T {
+	// Nothing to remove from an empty queue
+	if b.end == 0 {
+		return nil
+	}
+
 	b.ring.Value = nil
 	b.ring = b.ring.Next()
 
